@@ -16,7 +16,8 @@ The fact extractor is run once per configuration of the HBS_LMS_* environment (m
       the u16 length field)
   V4  usable and crash-free: the panic-freedom engine (C11's and C06's entry points) discharges every site with this
       configuration's capacities - refusals are error returns, never overflowing pushes
-  V5  the crate type-checks in the configuration (the extraction itself)
+  V5  the crate type-checks in the configuration (the extraction itself), the generated constants are the requested ones, and the
+      derived MAX_TREE_HEIGHT / MIN_WINTERNITZ_PARAMETER are the numeric extrema of the per-level lists
 Not decided: byte equality of keys / signatures across builds as a runtime fact (V1+V2 give "same code, same constants").
 """
 import concurrent.futures as cf
